@@ -125,6 +125,7 @@ class Flt:
         if N2 != N:
             raise pool.MachineryError("%s: workload %s counts %d events here but %d when the shards were cut"
                                       % (self.prop, name, N2, N))
+        hist = []    # fault points run on this machine since it was built
         for n in pts:
             label, vk, obs = self.one_run(w, i, n, ref)
             ph = phase(n, w0, w1)
@@ -135,11 +136,17 @@ class Flt:
                     # workloads whose known defects sit in a few-instruction window: the
                     # signature carries the offset from the workload's first instruction
                     vk = "%s @+%d" % (vk, n - (w0 or 0))
-                acc.violation("%s %s: %s" % (name, ph, vk), {"workload": name, "n": n},
+                # "after": the faults this machine had already survived; a violation that needs
+                # them (state left behind by an earlier, correctly delivered fault) is replayed
+                # with them when it does not show on a fresh machine
+                acc.violation("%s %s: %s" % (name, ph, vk), {"workload": name, "n": n, "after": hist[-3:]},
                               expected="the documented error, clean follow-ups", observed=obs)
                 w.new_machine()
                 ref = self.reference(w, i)
                 self.count(w, i)
+                hist = []
+            else:
+                hist.append(n)
         return acc.result()
 
     def recheck(self, w, case, tier):
@@ -148,6 +155,13 @@ class Flt:
         N, w0, w1, _ = self.count(w, i)
         ref = self.reference(w, i)
         label, vk, obs = self.one_run(w, i, case["n"], ref)
+        if not vk and case.get("after"):
+            w.new_machine()
+            N, w0, w1, _ = self.count(w, i)
+            ref = self.reference(w, i)
+            for m in case["after"]:
+                self.one_run(w, i, m, ref)
+            label, vk, obs = self.one_run(w, i, case["n"], ref)
         if vk and case["workload"] in self.fine_grained:
             vk = "%s @+%d" % (vk, case["n"] - (w0 or 0))
         if vk:
